@@ -22,6 +22,7 @@ import (
 )
 
 func TestMain(m *testing.M) {
+	kit.Register("final-eol", eolOracle)
 	kit.Register("constructed", compareOracle)
 	kit.Register("spec-rewrite", compareOracle)
 	kit.Register("emphasis", emphasisOracle)
@@ -101,6 +102,9 @@ var reURLAttr = regexp.MustCompile(`(href|src)="[^"]*"`)
 //	     only inside href/src values and the source contains '\&'.
 func classify(c *kit.Case, err error) string {
 	v, ok := err.(*kit.Violation)
+	if ok && v.Code == "final-line-ending-matters" {
+		return classifyEOL(c)
+	}
 	if !ok || v.Code != "html-differs" {
 		return ""
 	}
@@ -115,6 +119,31 @@ func classify(c *kit.Case, err error) string {
 	}
 	if strings.Contains(src, "\\&") && reURLAttr.ReplaceAllString(got, "$1") == reURLAttr.ReplaceAllString(want, "$1") {
 		return "F20"
+	}
+	return ""
+}
+
+// F31: the input ends, without a line ending, in a line that is blank once the container markers are removed
+// (only '>' markers and spaces/tabs) while a fenced code block is open inside the container: the blank content
+// line is lost (quote: the marker line is consumed whole and the child never sees an empty line) or keeps one
+// byte of the indentation (list item: Continue advances len(line)-1 assuming a line ending). Signature: that
+// shape of the last line, and the two outputs agree once the white space directly in front of every
+// "</code></pre>" is removed.
+var reMarkerOnlyLastLine = regexp.MustCompile(`(^|\n)[ \t>]*$`)
+var reCodeTail = regexp.MustCompile(`[ \t\n]*</code></pre>`)
+
+func classifyEOL(c *kit.Case) string {
+	src := c.Bytes["src"]
+	if !reMarkerOnlyLastLine.Match(src) {
+		return ""
+	}
+	cfg := gen.ParseConfig(c.Config)
+	var a, b bytes.Buffer
+	_ = cfg.MD().Convert(src, &a)
+	_ = cfg.MD().Convert(append(append([]byte{}, src...), '\n'), &b)
+	x, y := norm(a.String()), norm(b.String())
+	if x != y && reCodeTail.ReplaceAllString(x, "</code></pre>") == reCodeTail.ReplaceAllString(y, "</code></pre>") {
+		return "F31"
 	}
 	return ""
 }
@@ -147,6 +176,80 @@ func blockKinds(bs []Block, set map[string]bool) {
 			}
 		}
 	}
+}
+
+// eolOracle: CommonMark 2.1 - a line ends with a line ending "or by the end of file": a document and the same
+// document with a final line ending added have the same lines, hence the same blocks and the same HTML.
+func eolOracle(c *kit.Case) error {
+	cfg := gen.ParseConfig(c.Config)
+	src := c.Bytes["src"]
+	if n := len(src); n == 0 || src[n-1] == '\n' || src[n-1] == '\r' {
+		return nil
+	}
+	var a, b bytes.Buffer
+	if err := cfg.MD().Convert(src, &a); err != nil {
+		return kit.Violf("convert-error", "%v", err)
+	}
+	if err := cfg.MD().Convert(append(append([]byte{}, src...), '\n'), &b); err != nil {
+		return kit.Violf("convert-error", "%v", err)
+	}
+	if x, y := norm(a.String()), norm(b.String()); x != y {
+		return kit.Violf("final-line-ending-matters", "source %q\n without final line ending %q\n with it                   %q", src, x, y)
+	}
+	return nil
+}
+
+var eolConfigs = []gen.Config{{Unsafe: true}, {}, {Unsafe: true, XHTML: true}}
+
+// TestFinalLineEnding: (1) every construct-adjacency document (pairs, and triples over the tier's pool) and every
+// single line atom and pair of line atoms, written without the final line ending; (2) random documents of the
+// shared generators cut to end without one. Core CommonMark configurations only.
+func TestFinalLineEnding(t *testing.T) {
+	count := 0
+	runOne := func(doc []byte, class string) {
+		doc = bytes.TrimRight(doc, "\r\n")
+		if len(doc) == 0 {
+			return
+		}
+		c := kit.NewCase("final-eol", eolConfigs[count%len(eolConfigs)].String()).B("src", doc)
+		count++
+		if kit.Check(t, c) {
+			kit.R.Class("final-eol:" + class)
+			kit.R.NonTrivial(c)
+		}
+	}
+	n := gen.EnumConstructDocs(kit.Thorough(), func(idx int, doc []byte) {
+		if kit.Mine(idx) {
+			runOne(doc, "constructs")
+		}
+	})
+	atoms := gen.LineAtoms(true)
+	idx := 0
+	for _, a := range atoms {
+		idx++
+		if kit.Mine(idx) {
+			runOne([]byte(a), "line-atoms")
+		}
+		for _, b := range atoms {
+			idx++
+			if kit.Mine(idx) {
+				runOne([]byte(a+"\n"+b), "line-atoms")
+			}
+		}
+	}
+	kit.R.Note("exhaustive_final_eol", fmt.Sprintf("%d construct-adjacency documents and %d line-atom documents, each without its final line ending", n, idx))
+	kit.Rapid(t, "final-eol", 60000, 4000000, func(t *rapid.T) {
+		doc, class := gen.Doc(t, gen.Any, kit.Pick(24, 60), "d")
+		doc = bytes.TrimRight(doc, "\r\n")
+		if len(doc) == 0 {
+			return
+		}
+		c := kit.NewCase("final-eol", rapid.SampledFrom(eolConfigs).Draw(t, "cfg").String()).B("src", doc)
+		if kit.Check(t, c) {
+			kit.R.Class("final-eol:random", "final-eol-gen:"+class)
+			kit.R.NonTrivial(c)
+		}
+	})
 }
 
 func TestConstructed(t *testing.T) {
